@@ -154,7 +154,12 @@ impl TypeEnv {
         self.extern_types
             .entry(goml_name.clone())
             .or_insert_with(|| ExternType {
-                go_name: goml_name.clone(),
+                // the Go type is named like the declaration, without the goml package (`Tm::Time` is `time.Time`)
+                go_name: goml_name
+                    .rsplit("::")
+                    .next()
+                    .unwrap_or(goml_name.as_str())
+                    .to_string(),
                 package_path: None,
             });
     }
